@@ -16,7 +16,7 @@ Section Retry.
   Theorem copy_source_frame fault h dest x x' ok : h_dir h <> dest -> do_copy fault h dest x = (x', ok) ->
     forall n, fs_get (h_dir h, n) (fs x') = fs_get (h_dir h, n) (fs x).
   Proof.
-    intros N. unfold do_copy, transfer. destruct (negb (forallb plain (h_listed h))); [intros E; now inversion E|].
+    intros N. unfold do_copy, transfer. destruct (negb (listed_ok h)); [intros E; now inversion E|].
     destruct (each (copy_file fault) (h_dir h) dest (h_listed h) x) as [x1 ok1] eqn:E1. intros E n.
     assert (F1 : fs_get (h_dir h, n) (fs x1) = fs_get (h_dir h, n) (fs x)).
     { eapply each_copy_frame; [exact E1|]. intros m _. apply neq_entry. congruence. }
